@@ -4,7 +4,7 @@ CONSTANTS
   MaxChats = 1
   MaxSteps = 7
   GenDepth = 99
-  Ops = {"connect","login","close","kick","banadd","wait","restart","userlist"}
+  Ops = {"connect","dial","handshake","login","close","kick","banadd","wait","restart","userlist"}
   Thin = FALSE
 INIT Init
 NEXT Next
